@@ -97,6 +97,10 @@ class C08(spec.Spec):
                 ("rel", scope, "generation", None, (x, a1, None)),
                 ("rel", scope, "usage", g, (a1, x, None)),
             ]
+        # identified memberships with one identifier: without a member, with one, with another collection
+        m, c1, c2, e1 = ("A", "m", S("ex")), ("A", "c1", S("ex")), ("A", "c2", S("ex")), ("A", "e1", S("ex"))
+        ops += [("rel", "D", "membership", m, (c1, None)), ("rel", "D", "membership", m, (c1, e1)),
+                ("rel", "D", "membership", m, (c2, None))]
         ops += [("at", ("A", "k", S("ex")), "i_1"), ("at", ("A", "k", S("ex")), "i_2"),
                 ("at", ("P", "type", Q("prov")), "q_prov")]
         # look-ups (of an absent, of a present identifier) interleaved with the additions
